@@ -277,6 +277,12 @@ func RunS(p SPlan) (v hk.Verdict) {
 		return out
 	}
 
+	evLimit := 64
+
+	for _, prog := range p.Writers {
+		evLimit += 4 * len(prog)
+	}
+
 	for wi, wp := range p.Watchers {
 		wg.Add(1)
 
@@ -356,6 +362,14 @@ func RunS(p SPlan) (v hk.Verdict) {
 								}
 
 								seg.evs = append(seg.evs, conv(ev))
+
+								// a stream can hold the snapshot plus one event per commit; far beyond that it is fed
+								// from something other than the writers, which are done (reported below as events
+								// without a commit behind them)
+								if len(seg.evs) > evLimit {
+									drained = true
+									seg.cut = false
+								}
 							case <-time.After(20 * time.Millisecond):
 								drained = true
 							}
